@@ -70,6 +70,13 @@ GEN_SRC = {
     "par1": "int v = (a + b) + (c * d) - (a - (b - c));",
 }
 GEN_RP = {"par1": True}
+# one source for instances of different generator CLASSES (each task parses its
+# own AST): identifiers, constants, binary operators with parentheses that
+# reduce_parentheses removes, statements
+for _k in ("mix0", "mix1"):
+    GEN_SRC[_k] = "int v = (a + 1) * (b - 2); void f(int a){ if (a > 0) { a = a * (3 + v); } return; }"
+for _k in ("mini0", "mini1", "mini2"):  # three instances: a smaller source keeps bound 3 affordable
+    GEN_SRC[_k] = "int v = (a + 1) * (b - 2);"
 VIS_SRC = {
     "v1": "int a = b + 1; int c = a * 2;",
     "v2": "int f(int p){ return p - q; }",
@@ -99,13 +106,21 @@ class Scenario:
                       | 'sparse' (long input: the first 6 token pulls and then
                                   every 64th pull are points)
        kind 'ctor'    only constructs a CParser (points before and after)
+       an optional 4th field names the class of the instance:
+         gen:    deco (overrides visit_ID / visit_Constant / visit_BinaryOp),
+                 ownvisit (overrides visit() itself), rpsub (subclass with
+                 reduce_parentheses=True); default: plain CGenerator
+         parse:  loud (CParser subclass overriding the error hook)
        kind 'gen'     key in GEN_SRC, granularity 'visit' | 'call'
        kind 'visitor' key in VIS_SRC, granularity 'call'
        kind 'leaky-parse': harness-made interference (positive control)"""
 
     def __init__(self, name, *tasks):
         self.name = name
-        self.tasks = [tuple(t.split(":")) for t in tasks]
+        parts = [t.split(":") for t in tasks]
+        self.tasks = [tuple(x[:3]) for x in parts]
+        # optional 4th field: which CLASS the instance is made of
+        self.cls = [(x[3] if len(x) > 3 else "") for x in parts]
         self.ntasks = len(self.tasks)
         self.kinds = [{"parse": "parser", "gen": "generator", "visitor": "visitor",
                        "leaky-parse": "control", "ctor": "constructor"}[t[0]] for t in self.tasks]
@@ -139,9 +154,10 @@ class Scenario:
         ast = self._ast(n) if kind in ("gen", "visitor") else None
         if kind == "parse" and gran == "token":
             fn, text = PROGS[key]
+            PC = parser_class(self.cls[n])
 
             def job(point):
-                return _canon_raw(_raw_parse(lambda: CParser(lexer=sched.token_lexer(point)), text, fn))
+                return _canon_raw(_raw_parse(lambda: PC(lexer=sched.token_lexer(point)), text, fn))
 
         elif kind == "parse" and gran == "split":
             fn, text = PROGS[key]
@@ -205,10 +221,11 @@ class Scenario:
             only = ("visit",) if gran == "visit" else None
 
             rp = GEN_RP.get(key, False)
+            G = generator_class(self.cls[n])
+            mk = (lambda: G()) if self.cls[n] else (lambda: CGenerator(reduce_parentheses=rp))
 
             def job(point):
-                return sched.with_call_points(
-                    lambda: O.visit_obs(CGenerator(reduce_parentheses=rp), ast), point, only)
+                return sched.with_call_points(lambda: O.visit_obs(mk(), ast), point, only)
 
         elif kind == "visitor":
             if key == "v1":
@@ -257,6 +274,10 @@ class _Shared:
     filename = ""
 
 
+generator_class = O.generator_class
+parser_class = O.parser_class
+
+
 def scenario(name, *tasks):
     return Scenario(name, *tasks)
 
@@ -293,6 +314,14 @@ def plan(tier):
         (_ref("parser A | generator deep @token/visit", "parse:A:token", "gen:deep:visit"), bt),
         (_ref("2 generators deep|flat @visit", "gen:deep:visit", "gen:flat:visit"), bt),
         (_ref("2 generators same source, reduce_parentheses differs @visit", "gen:par0:visit", "gen:par1:visit"), bt),
+        # instances of different CLASSES: plain-then-subclass and
+        # subclass-then-plain are the two 0-preemption schedules (the first
+        # choice is free), taking turns item by item is within the bound
+        (_ref("plain CGenerator | subclass overriding visit_ID/Constant/BinaryOp @visit", "gen:mix0:visit", "gen:mix1:visit:deco"), bt),
+        (_ref("plain CGenerator | subclass overriding visit() @visit", "gen:mix0:visit", "gen:mix1:visit:ownvisit"), bt),
+        (_ref("plain CGenerator | subclass with reduce_parentheses=True @visit", "gen:mix0:visit", "gen:mix1:visit:rpsub"), bt),
+        (_ref("3 generator classes: visit_X overrides | visit() override | plain @visit", "gen:mini0:visit:deco", "gen:mini1:visit:ownvisit", "gen:mini2:visit"), bt),
+        (_ref("plain CParser D | CParser subclass (error hook) D | plain A @token", "parse:D:token", "parse:D:token:loud", "parse:A:token"), bt),
         (_ref("2 NodeVisitor subclasses @call", "visitor:v1:call", "visitor:v2:call"), bc),
         (_ref("2 parsers e|f (same bare #line) @call", "parse:e:call", "parse:f:call"), bc),
         (_ref("2 parsers a|c @call", "parse:a:call", "parse:c:call"), bc),
